@@ -9,10 +9,14 @@ import (
 	"encoding/json"
 	"fmt"
 	"runtime"
+	"sort"
 	"sync/atomic"
 	"testing"
 	"time"
 
+	godcp "github.com/Trendyol/go-dcp"
+	"github.com/Trendyol/go-dcp/couchbase"
+	"github.com/Trendyol/go-dcp/helpers"
 	"github.com/Trendyol/go-dcp/membership"
 )
 
@@ -98,4 +102,110 @@ func init() {
 		}
 		return c11ExecStress(sc)
 	})
+}
+
+// dynamic membership: the membership's own handler vs. the rebalance listener of the same bus event
+// (schedule not owned by the harness): many announcements under scheduling pressure; after each one the
+// stream must have been reopened on the announced range.
+type c11DynStress struct {
+	Rounds   int `json:"rounds"`
+	Spinners int `json:"spinners"`
+}
+
+func c11ExecDynStress(sc c11DynStress) string {
+	cfg := laConfig()
+	cfg.Dcp.Group.Membership.Type = membership.DynamicMembershipType
+	cl := newFakeClient(16)
+	hand := &fakeHandler{}
+	d := godcp.VerifNewDcp(cfg, cl, &fakeConsumer{}, &couchbase.Version{Major: 7, Minor: 6}, &couchbase.BucketInfo{BucketType: "membase"})
+	d.SetMetadata(newFakeMeta())
+	d.SetEventHandler(hand)
+	bus := godcp.VerifBus(d)
+	done := make(chan struct{})
+	go func() { defer close(done); d.Start() }()
+	for i := 0; i < 500 && !bus.HasCallback(helpers.MembershipChangedBusEventName); i++ {
+		time.Sleep(time.Millisecond)
+	}
+	bus.Publish(helpers.MembershipChangedBusEventName, &membership.Model{MemberNumber: 1, TotalMembers: 1})
+	select {
+	case <-d.WaitUntilReady():
+	case <-time.After(20 * time.Second):
+		return "HARNESS: not ready"
+	}
+	var stop atomic.Bool
+	for i := 0; i < sc.Spinners; i++ {
+		go func() {
+			for !stop.Load() {
+				runtime.Gosched()
+			}
+		}()
+	}
+	defer func() {
+		stop.Store(true)
+		d.Close()
+		select {
+		case <-done:
+		case <-time.After(20 * time.Second):
+		}
+	}()
+	count := func(name string) int {
+		n := 0
+		for _, x := range hand.names() {
+			if x == name {
+				n++
+			}
+		}
+		return n
+	}
+	for r := 0; r < sc.Rounds; r++ {
+		total := 2 + r%3
+		num := 1 + r%total
+		are := count("ARE")
+		nOpens := len(cl.openLog())
+		bus.Publish(helpers.MembershipChangedBusEventName, &membership.Model{MemberNumber: num, TotalMembers: total})
+		dl := time.Now().Add(20 * time.Second)
+		for count("ARE") <= are {
+			if time.Now().After(dl) {
+				return fmt.Sprintf("round %d: no reopen after the announcement %d/%d", r, num, total)
+			}
+			runtime.Gosched()
+		}
+		lo, hi := c16Range(16, total, num)
+		got := map[int]bool{}
+		for _, o := range cl.openLog()[nOpens:] {
+			got[int(o.Vb)] = true
+		}
+		if len(got) != hi-lo+1 || !got[lo] || !got[hi] {
+			return fmt.Sprintf("round %d: announced %d/%d (vBuckets %d-%d) but the stream was reopened on %d vBuckets %v - the previous membership information", r, num, total, lo, hi, len(got), keysOfB(got))
+		}
+		hand.mu.Lock()
+		hand.log = nil
+		hand.mu.Unlock()
+		select {
+		case <-done:
+			return fmt.Sprintf("round %d: the client stopped", r)
+		default:
+		}
+	}
+	return ""
+}
+
+func keysOfB(m map[int]bool) []int {
+	var k []int
+	for v := range m {
+		k = append(k, v)
+	}
+	sort.Ints(k)
+	return k
+}
+
+func TestC11_DynStressProbe(t *testing.T) {
+	if testing.Short() {
+		t.Skip()
+	}
+	for _, sp := range []int{0, 8, 32} {
+		t0 := time.Now()
+		d := c11ExecDynStress(c11DynStress{Rounds: 3000, Spinners: sp})
+		t.Logf("spinners=%d: %v in %v", sp, d, time.Since(t0))
+	}
 }
